@@ -173,8 +173,10 @@ def _walk_own(fn):
     while stack:
         n = stack.pop()
         yield n
+        if isinstance(n, (ast.FunctionDef, ast.AsyncFunctionDef, ast.Lambda, ast.ClassDef)):
+            continue            # a definition among the statements of the body: its own body is not this function's
         for c in ast.iter_child_nodes(n):
-            if not isinstance(c, (ast.FunctionDef, ast.Lambda, ast.ClassDef)):
+            if not isinstance(c, (ast.FunctionDef, ast.AsyncFunctionDef, ast.Lambda, ast.ClassDef)):
                 stack.append(c)
 
 
@@ -922,6 +924,15 @@ class Interp(object):
         if T is ast.Return:
             raise _Return(self.eval(st.value, fr) if st.value is not None else None)
         if T is ast.If:
+            if not st.orelse and len(st.body) == 1 and isinstance(st.body[0], ast.Assign) and len(st.body[0].targets) == 1 and \
+                    isinstance(st.body[0].targets[0], (ast.Name, ast.Attribute)):
+                # `if a > b: b = a` is b = max(a, b): the statement form of the selection idiom
+                asg = st.body[0]
+                kept = ast.copy_location(ast.parse(ast.unparse(asg.targets[0]), mode='eval').body, asg.targets[0])
+                sel = self._selection_idiom(ast.IfExp(test=st.test, body=asg.value, orelse=kept), fr)
+                if sel is not None:
+                    self.assign(asg.targets[0], sel, fr)
+                    return
             c = self.truth(self.eval(st.test, fr), st.test, fr)
             yield from self.exec_block(st.body if c else st.orelse, fr)
             return
@@ -1284,6 +1295,34 @@ class Interp(object):
                 raise AnalysisError('item assignment on %s is not modelled [at %s]' % (type(base).__name__, self.where()))
             raise InterpRaise(str(exc), type(exc).__name__)
 
+    def _selection_idiom(self, n, fr):
+        """`a if a > b else b` (and its three siblings) of two symbolic numbers is max(a, b) / min(a, b) - the value python's
+        max / min return for these operands - and not a decision of the program: evaluated as the same canonical atom as
+        the call.  Anything else (other operands, impure operands, concrete numbers) -> None, the ordinary evaluation."""
+        t = n.test
+        if not (isinstance(t, ast.Compare) and len(t.ops) == 1 and isinstance(t.ops[0], (ast.Gt, ast.GtE, ast.Lt, ast.LtE))):
+            return None
+        parts = (t.left, t.comparators[0], n.body, n.orelse)
+        for p in parts:
+            q = p
+            while isinstance(q, ast.Attribute):
+                q = q.value
+            if not isinstance(q, ast.Name):
+                return None
+        dl, dr, db, de = (ast.dump(p) for p in parts)
+        if dl == dr or {dl, dr} != {db, de}:
+            return None
+        lv, rv = self.eval(t.left, fr), self.eval(t.comparators[0], fr)
+        vals = (lv, rv)
+        if not all(isinstance(v, (int, Fr, Poly, Rat)) and not isinstance(v, bool) for v in vals):
+            return None
+        if all(ndarr.concrete_real(v) is not None for v in vals):
+            return None
+        greater = isinstance(t.ops[0], (ast.Gt, ast.GtE))
+        takes_left = db == dl
+        which = 'max' if greater == takes_left else 'min'
+        return sym_minmax(which, list(vals))
+
     on_store = None
     on_dict_store = None
 
@@ -1333,9 +1372,27 @@ class Interp(object):
             raise InterpTypeError("'%s' object is not iterable" % v.cls.name)
         if isinstance(v, (Poly, Rat, Fr, int)) and not isinstance(v, bool):
             raise InterpTypeError('object is not iterable')
+        if isinstance(v, ndarr.MaskedSel) and self.branch_oracle is not None and self.cur is not None:
+            # `for item in values[mask]` with an undetermined mask: whether an element takes part is a decision per element
+            arr, mask = self.externals.np_asarray(v.arr), self.externals.np_asarray(v.mask)
+            if arr.ndim == 1 and mask.shape == arr.shape:
+                module, node = self.cur
+                picked = []
+                for k in range(arr.size):
+                    mk = mask[k]
+                    if mk is True or mk is False or (isinstance(mk, Unk) and _is_truth_value(mk.expr)) or hasattr(mk, 'truth_'):
+                        if self.truth(mk, node, Frame(module)):
+                            picked.append(arr[k])
+                    else:
+                        raise AnalysisError('iteration over a selection by a mask of %r [at %s]' % (mk, self.where()))
+                return iter(picked)
         try:
             return iter(v)
         except TypeError as exc:
+            if type(v).__module__.startswith('ndverif') and not isinstance(v, Arr) and not getattr(v, 'is_elem_', False):
+                # a stand-in object of the analysis that cannot be iterated: a gap of the model, not a behaviour (a stand-in
+                # for a *number* is not iterable in python either)
+                raise AnalysisError('iteration over %s is not modelled [at %s]' % (type(v).__name__, self.where()))
             raise InterpTypeError(str(exc))
 
     # ------------------------------------------------------------------ expressions
@@ -1414,6 +1471,9 @@ class Interp(object):
                 left = right
             return result
         if T is ast.IfExp:
+            sel = self._selection_idiom(n, fr)
+            if sel is not None:
+                return sel
             c = self.truth(self.eval(n.test, fr), n.test, fr)
             return self.eval(n.body if c else n.orelse, fr)
         if T is ast.Subscript:
@@ -1790,6 +1850,10 @@ class Interp(object):
             h = getattr(x, 'int_', None)
             if h is not None:
                 return h(I)
+            if isinstance(x, Unk) and not a and _is_truth_value(x.expr) and I.branch_oracle is not None and I.cur is not None:
+                # int() of an undetermined truth value (`count += int(flag)`) is a decision point like bool()
+                module, node = I.cur
+                return 1 if I.truth(x, node, Frame(module)) else 0
             raise I.err('int() of symbolic value %r' % (x,))
 
         def b_float(x=0):
@@ -2145,6 +2209,26 @@ class TypeLike(object):
 
     def __repr__(self):
         return "<class '%s'>" % self.__name__
+
+
+def _is_truth_value(e):
+    """the description of an undetermined value says that it is a truth value: a comparison, a predicate, or and / or /
+    not of such"""
+    if isinstance(e, Unk):
+        return _is_truth_value(e.expr)
+    if isinstance(e, tuple) and e:
+        if e[0] == 'cmp':
+            return True
+        if e[0] == 'fn':
+            return e[1] in ('isnan', 'isinf', 'isfinite', 'iscomplex', 'isreal')
+        if e[0] in ('and', 'or'):
+            return all(_is_truth_value(x) or isinstance(x, bool) for x in e[1:])
+        if e[0] in ('any', 'all'):
+            items = e[1] if len(e) == 2 and isinstance(e[1], (list, tuple)) else e[1:]
+            return all(_is_truth_value(x) or isinstance(x, bool) for x in items)
+        if e[0] == 'not':
+            return _is_truth_value(e[1]) or isinstance(e[1], bool)
+    return False
 
 
 def sym_minmax(which, args):
